@@ -13,7 +13,7 @@ import (
 // ticks against the real FailoverController. Ghost state: since when the partner has been down without interruption.
 func VerifC14_History() {
 	cfg := DefaultFailoverConfig()
-	cfg.GracePeriod = 0
+	cfg.GracePeriod = time.Duration(ndPick("grace", 2)) * 5 * time.Second // no drain, or a 5 s drain before the role changes
 	mon := &HealthMonitor{logger: zap.NewNop()}
 	mon.health.Healthy = true
 	c := NewFailoverController(cfg, "standby-node", RoleStandby, 1, mon, zap.NewNop())
@@ -40,10 +40,26 @@ func VerifC14_History() {
 	})
 	start := time.Now()
 	downSince := time.Duration(-1) // offset from start; -1 = partner not down
+	spanAtRecovery := time.Duration(-1)
+	// while the controller drains (sleeps) the partner may come back
+	vOnSleep(func(d int64) {
+		if ndPick("partner-recovers-during-drain", 2) == 1 {
+			x := ndDuration("into-drain")
+			vAssume(x >= 0 && int64(x) <= d)
+			vAdvance(int64(x))
+			if !mon.health.Healthy {
+				mon.health.Healthy = true
+				spanAtRecovery = time.Since(start) - downSince
+				downSince = -1
+			}
+			c.handleHealthEvent(HealthEvent{Type: HealthEventPartnerUp, Timestamp: time.Now()})
+		}
+	})
 	promotions := 0
 	k := vParam("K", 4)
 	for i := 0; i < k; i++ {
 		roleBefore := c.CurrentRole()
+		spanAtRecovery = -1
 		forced := false
 		cbBefore := cbCalls
 		switch ndPick("event", 6) {
@@ -77,7 +93,8 @@ func VerifC14_History() {
 		if roleBefore == RoleStandby && roleAfter == RoleActive {
 			promotions++
 			if !forced {
-				vAssert(downSince >= 0 && time.Since(start)-downSince >= cfg.FailoverDelay, "standby promoted itself although the partner was not down continuously for the failover delay")
+				// (a recovery during the drain comes too late to cancel, provided the full delay had elapsed before it)
+				vAssert((downSince >= 0 && time.Since(start)-downSince >= cfg.FailoverDelay) || spanAtRecovery >= cfg.FailoverDelay, "standby promoted itself although the partner was not down continuously for the failover delay")
 			}
 		}
 		if roleBefore == RoleActive && roleAfter == RoleStandby {
